@@ -985,6 +985,9 @@ class XandikosBackend(webdav.Backend):
         self.index_threshold = index_threshold
 
     def _map_to_file_path(self, relpath):
+        # Normalise as get_resource() does, so that dot segments can never
+        # lead outside of the root directory.
+        relpath = posixpath.normpath("/" + relpath)
         return os.path.join(self.path, relpath.lstrip("/"))
 
     def _mark_as_principal(self, path):
